@@ -26,10 +26,18 @@ class StubTest:
         return 1.0, np.ones(len(d))
 
 
+_AUDITS = [0]
+
+
 def mk_audit(style, max_cards):
     from shangrla.core.Audit import Audit
     from shangrla.core.NonnegMean import NonnegMean
+    # the audit object has a card bound of its own besides its stratum's (the statements speak of the stratum's):
+    # unset, equal, larger or smaller
+    _AUDITS[0] += 1
+    own = [None, max_cards, max_cards + 4, max(0, max_cards - 1)][_AUDITS[0] % 4]
     return Audit.from_dict({"seed": 1, "sim_seed": 1, "quantile": 0.8, "error_rate_1": 0, "error_rate_2": 0, "reps": None,
+                            "max_cards": own,
                             "strata": {"s": {"max_cards": max_cards, "use_style": style, "replacement": False,
                                              "audit_type": Audit.AUDIT_TYPE.CARD_COMPARISON,
                                              "test": NonnegMean.alpha_mart, "estimator": NonnegMean.optimal_comparison,
@@ -99,8 +107,9 @@ def make_assertion(kind, con):
         con._sibling = both["W v X"]
         return both["W v L"]
     if kind.startswith("super"):
-        return next(iter(Assertion.make_supermajority_assertion(contest=con, share_to_win=con.share_to_win, winner="W",
-                                                                loser=["L"], **kw).values()))
+        # (the required share is the contest's; the factory's own keyword is given in some calls and left out in others)
+        skw = dict(kw, share_to_win=con.share_to_win) if _ROUTE[0] % 4 == 1 else kw
+        return next(iter(Assertion.make_supermajority_assertion(contest=con, winner="W", loser=["L"], **skw).values()))
     if kind == "nen":
         js = [{"winner": "W", "loser": "L", "assertion_type": "IRV_ELIMINATION", "already_eliminated": ["Y"]}]
     else:
